@@ -44,16 +44,54 @@ def _kinds(rng, repl):
     return [rng.choice(KINDS) for _ in repl]
 
 
+def _tab(procs, repl=(), replk=(), procs2=(), repl2=(), replk2=()):
+    """A registration: processor table of the main language and of the second language (if any file
+    of the load is a model of that one)."""
+    return dict(procs=list(procs), repl=list(repl), replk=list(replk) or ["str"] * len(repl),
+                procs2=list(procs2), repl2=list(repl2), replk2=list(replk2) or ["str"] * len(repl2))
+
+
+def _of_scenario(s):
+    return _tab(s["procs"], s["repl"], s["replk"], s.get("procs2", []), s.get("repl2", []), s.get("replk2", []))
+
+
+def _second_language(rng, scn):
+    """Now and then the imported files are models of a second language (another metamodel with the same
+    grammar and registrations of its own)."""
+    nfiles = max(o["file"] for o in scn["objs"])
+    if nfiles > 1 and rng.random() < 0.5:
+        lang = [1] + [rng.choice([1, 2]) for _ in range(nfiles - 1)]
+        if 2 not in lang:
+            lang[-1] = 2
+        scn["lang"] = lang
+    return scn
+
+
 def _tables(rng, scn, k):
-    """k seeded processor tables for a shape: (procs, repl, replk); the first registers every rule."""
+    """k seeded registrations for a shape; the first registers every rule."""
     rel = D.relevant_rules(scn)
+    two = 2 in (scn.get("lang") or [])
+
+    def other():
+        if not two:
+            return [], [], []
+        p2 = [r for r in D.RULES if r in rel and rng.random() < 0.7]
+        r2 = [r for r in p2 if rng.random() < 0.3]
+        return p2, r2, _kinds(rng, r2)
     repl = [r for r in rel if rng.random() < 0.35]
-    out = [(list(D.RULES), repl, _kinds(rng, repl))]
+    out = [_tab(D.RULES, repl, _kinds(rng, repl), *other())]
     while len(out) < k:
-        procs = [r for r in D.RULES if r in rel and rng.random() < 0.6]
+        # with two languages the main one quite often registers nothing at all
+        procs = [] if two and rng.random() < 0.4 else [r for r in D.RULES if r in rel and rng.random() < 0.6]
         repl = [r for r in procs if rng.random() < 0.4]
-        out.append((procs, repl, _kinds(rng, repl)))
+        out.append(_tab(procs, repl, _kinds(rng, repl), *other()))
     return out
+
+
+def _load(case, tab, user, work):
+    case.update(tab)
+    return D.load(case, work, tab["procs"], tab["repl"], user=user, replk=tab["replk"],
+                  procs2=tab["procs2"], repl2=tab["repl2"], replk2=tab["replk2"])
 
 
 def _events(obs):
@@ -83,16 +121,16 @@ def validate_traces(items, dev=""):
         shutil.rmtree(work, ignore_errors=True)
 
 
-def _stored(case, procs, repl, user):
-    return dict(rendered=dict(objs=case["objs"], refs=case["refs"], files=case["files"],
+def _stored(case, tab, user):
+    return dict(rendered=dict(objs=case["objs"], refs=case["refs"], files=case["files"], lang=case.get("lang"),
                               texts={str(k): v for k, v in case["texts"].items()}, matches=[]),
-                procs=procs, repl=repl, replk=case.get("replk") or ["str"] * len(repl), user=user)
+                tab=tab, user=user)
 
 
 def _restore(c):
     case = dict(c["rendered"])
     case["texts"] = {int(k): v for k, v in case["texts"].items()}
-    case["procs"], case["repl"], case["replk"] = c["procs"], c["repl"], c.get("replk") or ["str"] * len(c["repl"])
+    case.update(c["tab"])
     return case
 
 
@@ -111,34 +149,34 @@ def _why(case, obs, exp):
 
 
 def _judge_batch(rep, batch):
-    """batch: [(case, procs, repl, user, obs)] -- oracle comparison, trace validation as the arbiter."""
-    cases = [D.spec_view(c, id=str(i), want="c13", devsets=[[]]) for i, (c, _, _, _, _) in enumerate(batch)]
+    """batch: [(case, tab, user, obs)] -- oracle comparison, trace validation as the arbiter."""
+    cases = [D.spec_view(c, id=str(i), want="c13", devsets=[[]]) for i, (c, _, _, _) in enumerate(batch)]
     res, st = tlc.oracle("OracleLoaderProc", cases)
     rep.add_oracle("OracleLoaderProc[c13]", st)
     doubt = []
-    for i, (c, procs, repl, user, obs) in enumerate(batch):
+    for i, (c, tab, user, obs) in enumerate(batch):
         e = res[str(i)]
         same = obs["ok"] and common.canon(obs["calls"]) == common.canon(e["calls"]) and \
             common.canon(obs["final"]) == common.canon(e["final"])
         if same:
             two = any(a["obj"] == b["obj"] for a, b in zip(obs["calls"], obs["calls"][1:]))
             replaced = any(not x["reach"] for x in obs["final"])
-            rep.passed(dict(texts=c["texts"], procs=procs, repl=repl, user=user, calls=len(obs["calls"])),
+            rep.passed(dict(texts=c["texts"], tab=tab, user=user, calls=len(obs["calls"])),
                        nontrivial=len(c["objs"]) >= 3 and (two or replaced))
         else:
             doubt.append((i, e))
     if doubt:
         # the canonical walk fixes an order among sibling subtrees the property does not;
         # TLC decides whether the log is a behaviour of the (order-free) machine
-        _, got = validate_traces([(batch[i][0], batch[i][4]) for i, _ in doubt])
+        _, got = validate_traces([(batch[i][0], batch[i][3]) for i, _ in doubt])
         for k, (i, e) in enumerate(doubt, 1):
-            c, procs, repl, user, obs = batch[i]
+            c, tab, user, obs = batch[i]
             t = got[k]
             if obs["ok"] and t["reached"] == t["len"]:
                 rep.passed(None)
                 rep.note("a log differing from the canonical walk was accepted by trace validation")
             else:
-                rep.violation(dict(kind="oracle", **_stored(c, procs, repl, user), observed=dict(
+                rep.violation(dict(kind="oracle", **_stored(c, tab, user), observed=dict(
                     calls=obs["calls"], final=obs.get("final"), err=obs.get("err")), expected=e),
                     _why(c, obs, e))
 
@@ -163,14 +201,20 @@ def run(rep):
         "runs; 'inited' = every user-class object created so far has had its __init__ called",
         "the order among sibling subtrees (meta-attribute order, list order) is compared on the fast path only; "
         "a log that differs there is judged by trace validation, which leaves that order free as the property does",
-        "replacement values are identifying strings or falsy non-None values (0, '', [], False, (), 0.0); a plain "
-        "value held by an attribute typed with an abstract rule that has a match-rule alternative (Value: Tag | Cell) "
-        "is seen only by the abstract rule's processor; match-rule processors are not part of this check",
+        "replacement values are identifying strings or falsy non-None values (0.0, '', [], False, ()); a plain "
+        "value (a Tag string or an INT, one of them 0) held by a single or list attribute typed with an abstract rule "
+        "that has match-rule alternatives (Value: Tag | INT | Cell) is seen only by the abstract rule's processor; "
+        "match-rule processors are not part of this check",
+        "files of a load may be models of a second language (another metamodel with the same grammar, registered for "
+        "*.m2 files, with processor registrations of its own); an object is processed with the registrations of the "
+        "language of its own model",
+        "the dict handed to register_obj_processors is overwritten with never-to-be-called processors right after the "
+        "registration; metamodels are reused from load to load",
     ]
     # (M); in the quick tier the same run hands out its scenario universe (shape x processor table)
     if quick:
         scns = _mc(rep, 3, 2, emit=True)
-        plan = [(s, [(s["procs"], s["repl"], s["replk"])]) for s in scns]
+        plan = [(s, [_of_scenario(s)]) for s in scns]
         if len(plan) > 1800:
             plan = rng.sample(plan, 1800)
         rep.exhaustive = len(plan) == len(scns)
@@ -193,58 +237,57 @@ def run(rep):
     # every table that registers a single rule, all rules but one, and all rules
     for t in D.recursive_templates() + D.qualified_templates():
         rel = D.relevant_rules(t)
-        tabs = [([r], [], []) for r in rel] + [([x for x in rel if x != r], [], []) for r in rel]
-        tabs += [([r], [r], ["str"]) for r in rel[:4]] + [(list(rel), [], [])]
+        tabs = [_tab([r]) for r in rel] + [_tab([x for x in rel if x != r]) for r in rel]
+        tabs += [_tab([r], [r]) for r in rel[:4]] + [_tab(rel)]
         plan.append((t, tabs))
     # bigger seeded-random forests for the same comparison
     nrand = 250 if quick else 3000
     for _ in range(nrand):
-        s = D.random_scenario(rng, max_objs=rng.randint(4, 9), nfiles=rng.choice([1, 1, 2]), max_postpone=1)
+        s = _second_language(rng, D.random_scenario(rng, max_objs=rng.randint(4, 9), nfiles=rng.choice([1, 1, 2, 2]),
+                                                    max_postpone=1))
         tabs = _tables(rng, s, 2)[1:]
         if rng.random() < 0.3:          # now and then a table with a single registered rule
             one = rng.choice(D.relevant_rules(s))
-            tabs.append(([one], [], []))
+            tabs.append(_tab([one]))
         plan.append((s, tabs))
     rep.bounds["random_forests"] = dict(count=nrand, max_objs=9)
     work = tlc.scratch("vt-c13-")
     try:
         batch = []
         for k, (s, tables) in enumerate(plan):
-            for j, (procs, repl, replk) in enumerate(tables):
+            for j, tab in enumerate(tables):
                 case = D.render(s, rng)
-                case["procs"], case["repl"], case["replk"] = procs, repl, replk
                 user = bool((k + j) % 2)
-                obs = D.load(case, work, procs, repl, user=user, replk=replk)
-                batch.append((case, procs, repl, user, obs))
+                obs = _load(case, tab, user, work)
+                batch.append((case, tab, user, obs))
         _judge_batch(rep, batch)
         # (I->S)
         ntr = 60 if quick else 800
         items, meta = [], []
         for k in range(ntr):
-            s = D.random_scenario(rng, max_objs=rng.randint(6, 14), nfiles=rng.choice([1, 1, 2, 3]),
-                                  max_postpone=rng.choice([0, 1, 2]))
-            procs = [x for x in D.RULES if rng.random() < 0.7]
-            repl = [x for x in procs if rng.random() < 0.25]
+            s = _second_language(rng, D.random_scenario(rng, max_objs=rng.randint(6, 14),
+                                                        nfiles=rng.choice([1, 1, 2, 3]),
+                                                        max_postpone=rng.choice([0, 1, 2])))
+            tab = _tables(rng, s, 2)[1]
             case = D.render(s, rng)
-            case["procs"], case["repl"], case["replk"] = procs, repl, _kinds(rng, repl)
             user = bool(k % 2)
-            obs = D.load(case, work, procs, repl, user=user, replk=case["replk"])
+            obs = _load(case, tab, user, work)
             items.append((case, obs))
-            meta.append((procs, repl, user))
+            meta.append((tab, user))
     finally:
         shutil.rmtree(work, ignore_errors=True)
     r, got = validate_traces(items)
     rep.add_mc("TraceLoaderProc", r, ["TraceNext consumes every event"])
     for k, (case, obs) in enumerate(items, 1):
         t = got[k]
-        procs, repl, user = meta[k - 1]
+        tab, user = meta[k - 1]
         if obs["ok"] and t["reached"] == t["len"]:
-            rep.passed(dict(texts=case["texts"], procs=procs, repl=repl, user=user, calls=len(obs["calls"])),
+            rep.passed(dict(texts=case["texts"], tab=tab, user=user, calls=len(obs["calls"])),
                        nontrivial=len(obs["calls"]) >= 6)
         else:
             ev = _events(obs)
             at = ev[t["reached"]] if t["reached"] < len(ev) else None
-            rep.violation(dict(kind="trace", **_stored(case, procs, repl, user),
+            rep.violation(dict(kind="trace", **_stored(case, tab, user),
                                observed=dict(calls=obs["calls"], final=obs.get("final"), err=obs.get("err"))),
                           f"event {t['reached'] + 1} of the recorded log is not a step of LoaderProc!Next: {at}"
                           if obs["ok"] else f"loading failed: {obs.get('err')} {obs.get('exc', '')}")
@@ -258,7 +301,7 @@ def replay(path):
     case = _restore(c)
     work = tlc.scratch("vt-c13-")
     try:
-        obs = D.load(case, work, c["procs"], c["repl"], user=c["user"], replk=case["replk"])
+        obs = _load(case, c["tab"], c["user"], work)
     finally:
         shutil.rmtree(work, ignore_errors=True)
     for k, v in sorted(case["texts"].items()):
